@@ -28,11 +28,11 @@ PROPS = {
                    "count handed to the ERDMA device plugin are not reachable; the node capability file is replaced by "
                    "in-memory nodecap settings; the fake client stands in for the API server",
         tests=[
-            dict(unit="c19_client", test="TestVerifC19Limits", quick=100000, thorough=4000000),
-            dict(unit="c19_daemon", test="TestVerifC19Pool", quick=100000, thorough=4000000),
-            dict(unit="c19_ctlnode", test="TestVerifC19NodeAnno", quick=16000, thorough=600000),
-            dict(unit="c19_eni", test="TestVerifC19NodeReconcile", quick=16000, thorough=600000),
-            dict(unit="c19_eni", test="TestVerifC19ClosedLoop", quick=16000, thorough=600000),
+            dict(unit="c19_client", test="TestVerifC19Limits", quick=100000, thorough=2000000),
+            dict(unit="c19_daemon", test="TestVerifC19Pool", quick=100000, thorough=2000000),
+            dict(unit="c19_ctlnode", test="TestVerifC19NodeAnno", quick=16000, thorough=400000),
+            dict(unit="c19_eni", test="TestVerifC19NodeReconcile", quick=16000, thorough=400000),
+            dict(unit="c19_eni", test="TestVerifC19ClosedLoop", quick=16000, thorough=400000),
             dict(unit="c19_eni", test="TestVerifC19KnownWitnessIPv6Only", quick=1, thorough=1, shards=1),
             dict(unit="c19_eni", test="TestVerifC19KnownWitnessCRDPool", quick=1, thorough=1, shards=1),
         ],
